@@ -56,7 +56,8 @@ type OpResult struct {
 	Item    int   // canonical item number the op touched (0 = none)
 	Page    int   // canonical page (node) number of that item
 	Written int   // value written (upd/updf/add/ups)
-	Alias   int   // rm: the item the tracker registered as removed when that is not the item found (0 = same, -1 = none)
+	Inner   bool  // rm: the item found sits in a node with children (its in-order successor moves up = changes page)
+	Alias   int   // rm (legacy, before repo commit a8e6b837): the item the tracker registered as removed when that is not the item found (0 = same, -1 = none)
 	Err     bool
 }
 
@@ -402,6 +403,7 @@ func (p *Proc) exec(i int, op Op) OpResult {
 			return r
 		} else if f {
 			here()
+			r.Inner = common.VerifOccCurrentNodeIsInner(ctx, p.Txn.P, 0)
 		}
 		before := p.trackedActions()
 		ok, err := b.Remove(ctx, op.Key)
